@@ -2,7 +2,7 @@ SPECIFICATION TrSpec
 CONSTANTS
     TopicOrder <- MCTopicOrder
     IdOrder <- MCIdOrder4
-    Handlers = {"h1", "h2", "h3"}
+    Handlers = {"h1", "h2", "h3", "h4", "h5"}
     Publishers = {"p1"}
     MaxCollects = 1000000
     MaxRegOps = 1000000
